@@ -509,6 +509,14 @@ def run(rec, cfg):
                     P.get_blocker(num, excl if rng.random() < 0.7 else None)
                 except Exception:
                     pass
+            # the hold-out letters in whatever container the caller has them: membership is all that is asked of it
+            for box in (tuple(excl), set(excl), frozenset(excl), "".join(excl), dict.fromkeys(excl).keys(), dict.fromkeys(excl, 1)):
+                try:
+                    P.get_rand_vars(rng.randint(1, 4), box)
+                    P.get_blocker(rng.randint(1, 3), box)
+                    rec.arm("helper:exclusions-in-other-containers")
+                except Exception:
+                    pass
             P.split_in_two_random(rng.randint(0, 40))
             try:
                 t = P.get_rand_term_templates(rng.randint(1, 6), exponent_probability=rng.choice([0, 0.5, 1.0]), common_variables=rng.random() < 0.3)
